@@ -124,6 +124,19 @@ func runC10(c *core.Ctx) {
 		}
 		sum := func(v ssa.Value) bool { return callResult(v, -1, "internal/rsum.CRC32Reader.Sum32") }
 		eq := eqEdges(fn, sum, hdrCRC)
+		// a comparison moved into a private helper: the helper's success stands for the equal edge
+		for _, call := range an.AllCalls(fn, false) {
+			g := call.Common().StaticCallee()
+			if g == nil || g == fn {
+				continue
+			}
+			if successBehind(g, func(h *ssa.Function) map[an.Edge]bool { return eqEdges(h, sum, hdrCRC) }) {
+				c.Touch(g)
+				for e := range an.SenseEdges(fn, an.ErrResult(call), an.IsNil) {
+					eq[e] = true
+				}
+			}
+		}
 		c.Count("CRC comparisons in Restore", len(eq))
 		c.Min("CRC comparisons in Restore", 2)
 		// db comparison: the one outside any loop
